@@ -3,6 +3,9 @@ import KyupyVerif.Model.Comp
 import KyupyVerif.Model.Wave
 import KyupyVerif.Model.Heap
 import KyupyVerif.Model.Kahn
+import KyupyVerif.Model.Net
+import KyupyVerif.Model.SimOps
+import KyupyVerif.Gen.Tables
 /-! Line protocol driver: one request per line on stdin, one answer per line on stdout.
 Only core-Lean model files are imported, so this links as a stand-alone executable. -/
 open KV
@@ -80,8 +83,44 @@ def handle (rest : String) : String :=
   | _ => "bad"
 end KahnD
 
+/-! ### netlists -/
+namespace NetD
+def hexVal (c : Char) : Nat :=
+  if c.isDigit then c.toNat - '0'.toNat else if 'a' ≤ c ∧ c ≤ 'f' then c.toNat - 'a'.toNat + 10
+  else if 'A' ≤ c ∧ c ≤ 'F' then c.toNat - 'A'.toNat + 10 else 0
+def pctDecode : List Char → List Char
+  | '%' :: a :: b :: r => Char.ofNat (16 * hexVal a + hexVal b) :: pctDecode r
+  | '%' :: _ => []
+  | c :: r => c :: pctDecode r
+  | [] => []
+def unpct (s : String) : String := String.ofList (pctDecode s.toList)
+def parsePins (s : String) : List (Option Nat) :=
+  (s.splitOn ",").filter (· ≠ "") |>.map fun t => if t == "-" then none else some t.toNat!
+def parseNode (s : String) : NodeD :=
+  match s.splitOn ":" with
+  | [k, i, o] => { kind := unpct k, ins := parsePins i, outs := parsePins o }
+  | _ => default
+def parseLine (s : String) : LineD :=
+  match (s.splitOn ".").map String.toNat! with
+  | [a, b, c, d] => ⟨a, b, c, d⟩
+  | _ => default
+def parseNet (s : String) : Net :=
+  match (s.splitOn ";").map (·.trimAscii.toString) with
+  | [ns, ls, io] =>
+    { nodes := ((ns.splitOn "|").filter (· ≠ "") |>.map parseNode).toArray,
+      lines := ((ls.splitOn "|").filter (· ≠ "") |>.map parseLine).toArray,
+      io := parseNats io }
+  | _ => default
+def showOps (ops : List OpRow) : String :=
+  " ".intercalate (ops.map fun o => s!"{o.lut},{o.out},{o.i0},{o.i1},{o.i2},{o.i3}")
+def showInts (l : List Int) : String := ",".intercalate (l.map toString)
+def showNats (l : List Nat) : String := ",".intercalate (l.map toString)
+def bitsOf (s : String) : Nat → Bool := fun i => (s.toList.getD i '0') == '1'
+end NetD
+
 structure DState where
   heap : KV.Heap.Heap := { cs := [], maxSz := 0 }
+  net : Net := default
 
 def step (st : DState) (line : String) : DState × String :=
   let l := line.trimAscii.toString
@@ -99,6 +138,44 @@ def step (st : DState) (line : String) : DState × String :=
       | some h' => ({ st with heap := h' }, s!"ok ; {HeapD.dump h'}")
       | none => (st, "err")
   | "kahn" :: _ => (st, KahnD.handle (l.drop 5).toString)
+  | "net" :: _ => ({ st with net := NetD.parseNet (l.drop 4).toString }, "ok")
+  | ["snodes"] => (st, NetD.showNats st.net.sNodes)
+  | ["genops", strip, order] =>
+      (st, NetD.showOps (genOps Gen.kindPrefixes st.net (parseNats order) (strip == "1")))
+  | ["simops", strip, reuse, capsMin, capsSpec, order] =>
+      let net := st.net
+      let ops := genOps Gen.kindPrefixes net (parseNats order) (strip == "1")
+      let stems := stemsOf net (strip == "1")
+      let lev := levelise net.idx.len stems ops
+      let capsL := (parseNats capsSpec).toArray
+      let capsIn : Nat → Nat := fun i => if capsL.size == 1 then capsL[0]! else capsL.getD i 0
+      let m := memMap net ops stems lev capsIn capsMin.toNat! (reuse == "1")
+      (st, s!"{NetD.showOps ops} ; {NetD.showNats lev.starts.reverse} ; {NetD.showInts m.locs.toList} ; {NetD.showNats m.caps.toList} ; {m.heap.maxSz}")
+  | ["evalmv", m, codes] =>
+      let net := st.net
+      let cs := codes.toList.map fun ch => ch.toNat - '0'.toNat
+      let res : List String :=
+        if m == "8" then
+          let a : Nat → V3 := fun i => V3.ofCode (cs.getD i 0)
+          let ok := consistentB net V3.zero specNot prim8 a (evalAll net V3.zero specNot prim8 a)
+          (evalCapturesG net V3.zero specNot prim8 a).map (fun o => match o with
+            | some v => toString v.code | none => "-") ++ [if ok then "" else "!"]
+        else
+          let a : Nat → V2 := fun i => V2.ofV3 (V3.ofCode (cs.getD i 0))
+          let z := V2.ofV3 V3.zero
+          let ok := consistentB net z spec4Not prim4 a (evalAll net z spec4Not prim4 a)
+          (evalCapturesG net z spec4Not prim4 a).map (fun o => match o with
+            | some v => toString v.code | none => "-") ++ [if ok then "" else "!"]
+      (st, "".intercalate res)
+  | ["eval2", bits, k] =>
+      let net := st.net
+      let a := iterState net k.toNat! (NetD.bitsOf bits)
+      let n := net.sNodes.length
+      let ok := consistentB net false (!·) prim2 a (evalAll net false (!·) prim2 a)
+      let cap := (evalCaptures net a).map fun o => match o with
+        | some true => "1" | some false => "0" | none => "-"
+      let nxt := (List.range n).map fun j => if a j then "1" else "0"
+      (st, s!"{"".intercalate cap}{if ok then "" else "!"} {"".intercalate nxt}")
   | _ => (st, "bad-op")
 
 partial def loop (h : IO.FS.Stream) (out : IO.FS.Stream) (st : DState) : IO Unit := do
@@ -106,6 +183,7 @@ partial def loop (h : IO.FS.Stream) (out : IO.FS.Stream) (st : DState) : IO Unit
   if line.isEmpty then return ()
   let (st', ans) := step st line
   out.putStrLn ans
+  out.flush
   loop h out st'
 
 def main : IO Unit := do
